@@ -246,12 +246,23 @@ func c02Exec(c fw.Case) *fw.Result {
 		}
 	}
 	var snaps []string
+	// half of the runs: the consumer treats what it was handed as its own and appends to the
+	// tag, node and member lists at once ("consumes and retains"); nothing else may notice
+	own := (c.Seed>>5)%2 == 1
+	var undo []func()
 	sr := pbfScan(rd, procs, false, func(s *osmpbf.Scanner) {
 		s.FilterNode = func(n *osm.Node) bool { return onFilter(n) }
 		s.FilterWay = func(w *osm.Way) bool { return onFilter(w) }
 		s.FilterRelation = func(r *osm.Relation) bool { return onFilter(r) }
 	}, func(i int, o osm.Object, s *osmpbf.Scanner) {
-		snaps = append(snaps, eq.Dump(o))
+		if own {
+			cl := eq.Clone(o)
+			c08Own(cl, i)
+			snaps = append(snaps, eq.Dump(cl))
+			undo = append(undo, c08Own(o, i))
+		} else {
+			snaps = append(snaps, eq.Dump(o))
+		}
 		p := -1
 		if q, ok := pos[c08KeyOf(o)]; ok {
 			p = q
@@ -271,14 +282,20 @@ func c02Exec(c fw.Case) *fw.Result {
 		res.Violatef(key+"/err", "scan of a valid file failed with %d decoders under plan %s: %v", procs, planName, sr.Err)
 		return res
 	}
+	for i, o := range sr.Objs {
+		if i < len(snaps) && eq.Dump(o) != snaps[i] {
+			res.Violatef(key+"/retained-object-changed", "object #%d (%s) changed after delivery (consumer appends to its objects: %v): %s", i, objID(o), own, eq.Diff(snaps[i], eq.Dump(o)))
+			break
+		}
+	}
+	for _, u := range undo {
+		u()
+	}
 	if d := pbfw.CompareSeq(want, sr.Objs); d != "" {
 		res.Violatef(key+"/sequence", "%d decoders, plan %s: %s", procs, planName, d)
 	}
-	for i, o := range sr.Objs {
-		if i < len(snaps) && eq.Dump(o) != snaps[i] {
-			res.Violatef(key+"/retained-object-changed", "object #%d (%s) changed after delivery: %s", i, objID(o), eq.Diff(snaps[i], eq.Dump(o)))
-			break
-		}
+	if own {
+		res.Add("runs_with_owning_consumer", 1)
 	}
 	if cbDiff != "" {
 		res.Violatef(key+"/decoder-view", "%s", cbDiff)
@@ -391,7 +408,7 @@ func init() {
 	fw.Register(&fw.Prop{
 		ID:    "C02",
 		Level: "exploration",
-		Rule: "PRNG files of 12-60 small mixed blocks, a thirtieth of them with blocks of 8001-16001 elements (a fifth of them without header block, i.e. resumed streams); decoder counts {1,2,3,4,7,10,11,16,32}; perturbation plans {none, reverse staircase, one slow worker, slow reader, slow consumer, bursty, random, Gosched storm} injected in the reader's Read, the decoders' filter callbacks and the consumer loop; GOMAXPROCS {default,1,2,16}; half the runs under the race detector; plus 3-8 scanners over different files running concurrently in one process. " +
+		Rule: "PRNG files of 12-60 small mixed blocks, a thirtieth of them with blocks of 8001-16001 elements (a fifth of them without header block, i.e. resumed streams); decoder counts {1,2,3,4,7,10,11,16,32}; perturbation plans {none, reverse staircase, one slow worker, slow reader, slow consumer, bursty, random, Gosched storm} injected in the reader's Read, the decoders' filter callbacks and the consumer loop; GOMAXPROCS {default,1,2,16}; half the runs under the race detector; in half the runs the consumer appends to the tag, node and member lists of every object it is handed (what it owns must not be visible in any other object); plus 3-8 scanners over different files running concurrently in one process. " +
 			"Schedules are sampled, not enumerated. Signature = (decoders, plan, GOMAXPROCS, run had a completion inversion, consumer overlapped a later block's decoding); the evidence also counts distinct block-completion permutations.",
 		Assumptions: []string{
 			"filter callbacks always return true here, so the sequence must equal the unfiltered model sequence",
